@@ -504,7 +504,7 @@ pub fn gen_cones(t: &mut Tape, cfg: &GenCfg) -> Vec<ConeSpec> {
 // planted problems
 // ---------------------------------------------------------------------
 
-fn gen_dense_sparse(t: &mut Tape, m: usize, n: usize, dens: f64, mag: f64) -> Mat {
+pub fn gen_dense_sparse(t: &mut Tape, m: usize, n: usize, dens: f64, mag: f64) -> Mat {
     let mut a = zeros(m, n);
     for i in 0..m {
         for j in 0..n {
@@ -520,7 +520,7 @@ fn gen_dense_sparse(t: &mut Tape, m: usize, n: usize, dens: f64, mag: f64) -> Ma
     a
 }
 
-fn gen_p(t: &mut Tape, n: usize) -> Mat {
+pub fn gen_p(t: &mut Tape, n: usize) -> Mat {
     // P = M'M with M r x n sparse; r=0 => LP
     let r = match t.weighted(&[3, 3, 2]) {
         0 => 0,
@@ -547,7 +547,7 @@ fn gen_p(t: &mut Tape, n: usize) -> Mat {
     p
 }
 
-fn p_to_raw(t: &mut Tape, p: &Mat, n: usize) -> Raw {
+pub fn p_to_raw(t: &mut Tape, p: &Mat, n: usize) -> Raw {
     // full symmetric or upper triangular
     let full = t.chance(0.35);
     let mut pm = p.clone();
